@@ -303,6 +303,12 @@ pub fn safe_rule(d: &Data, r: &mut Rng, allow_wild: bool) -> String {
 }
 
 pub fn safe_word(d: &Data, r: &mut Rng) -> String {
+    if r.chance(1, 12) {
+        // a phrase; sometimes with two blanks between its words (an empty word in the middle)
+        let a = safe_word(d, r);
+        let b = safe_word(d, r);
+        return if r.chance(1, 2) { format!("{a}  {b}") } else { format!("{a} {b}") };
+    }
     loop {
         let w = gen::gen_word(d, r);
         if w.contains('#') || w.trim() != w || w.is_empty() || w.contains('\n') {
@@ -664,7 +670,21 @@ pub fn gen_scn(d: &Data, r: &mut Rng, faulty: bool) -> Scn {
                 c
             }
         };
-        let class = if !faulty {
+        // sometimes the output path names an existing directory (out.<ext> is then created for it)
+        let mut cmd = cmd;
+        let mut dir_target = false;
+        if r.chance(1, 12) {
+            let dname = if has_o && r.chance(1, 2) { "o" } else { "wd" };
+            let dpath = if from_wd { format!("../{dname}") } else { dname.to_string() };
+            match &mut cmd {
+                Cmd::Run { output, .. } | Cmd::ConvAsca { output, .. } => {
+                    *output = Some(dpath);
+                    dir_target = true;
+                }
+                _ => {}
+            }
+        }
+        let class = if !faulty || dir_target {
             FaultClass::None
         } else {
             match r.below(10) {
@@ -677,7 +697,11 @@ pub fn gen_scn(d: &Data, r: &mut Rng, faulty: bool) -> Scn {
         invs.push(Inv {
             cmd,
             cwd,
-            answers: answers(r),
+            answers: if dir_target {
+                if r.chance(1, 2) { vec!["y".into(), "y".into()] } else { vec!["n".into(), "n".into()] }
+            } else {
+                answers(r)
+            },
             detrand: r.next_u64() | 1,
             dirseed: if faulty || r.chance(1, 2) { r.next_u64() | 1 } else { 0 },
             class,
